@@ -2,6 +2,7 @@ package ast
 
 import (
 	"bytes"
+	"sort"
 
 	fail "github.com/textwire/textwire/v2/fail"
 	token "github.com/textwire/textwire/v2/token"
@@ -135,7 +136,17 @@ func (p *Program) HasUseStmt() bool {
 }
 
 func (p *Program) checkUndefinedInsert(inserts map[string]*InsertStmt) *fail.Error {
+	// look at the inserts in alphabetical order, so that the reported
+	// insert doesn't depend on Go's random map order
+	names := make([]string, 0, len(inserts))
+
 	for name := range inserts {
+		names = append(names, name)
+	}
+
+	sort.Strings(names)
+
+	for _, name := range names {
 		if _, ok := p.Reserves[name]; ok {
 			continue
 		}
